@@ -1,9 +1,12 @@
 // c33: util.BaseJobWorker / ErrCallbackJobWorker / RunJobWorker / BatchWork.
 // (1) forced schedules: jobs are parked on channels, the harness issues NewJob / job end / Done /
-//     Cancel / Wait one at a time and observes what each call returns and when Wait returns; the
-//     same schedule is replayed by the Coq model (coq/C33/Model.v).
+//
+//	Cancel / Wait one at a time and observes what each call returns and when Wait returns; the
+//	same schedule is replayed by the Coq model (coq/C33/Model.v).
+//
 // (2) free-running RunJobWorker / RunErrCallbackJobWorker / BatchWork with random sizes, failing
-//     jobs and cancellations; the property's own statement is checked on the result.
+//
+//	jobs and cancellations; the property's own statement is checked on the result.
 package main
 
 import (
@@ -11,6 +14,7 @@ import (
 	"errors"
 	"fmt"
 	"sort"
+	"strings"
 	"sync"
 	"sync/atomic"
 	"time"
@@ -26,10 +30,10 @@ type opT struct {
 }
 
 type replay struct {
-	Kind  string `json:"kind"` // "schedule" | "free"
-	Size  int    `json:"size"`
-	ErrCb bool   `json:"errcb"`
-	Ops   []opT  `json:"ops"`
+	Kind  string    `json:"kind"` // "schedule" | "free"
+	Size  int       `json:"size"`
+	ErrCb bool      `json:"errcb"`
+	Ops   []opT     `json:"ops"`
 	Free  *freeCase `json:"free,omitempty"`
 }
 
@@ -53,19 +57,28 @@ func errCode(err error) int {
 	}
 }
 
-const long = 20 * time.Second
+// how long a positive observation is waited for; after a few timeouts (a broken worker) the waits are
+// cut short so that the run still ends in time
+var timeouts int32
+
+func long() time.Duration {
+	if atomic.LoadInt32(&timeouts) >= 3 {
+		return 300 * time.Millisecond
+	}
+	return 8 * time.Second
+}
 
 // ---------------------------------------------------------------- forced schedules
 
 type obs struct{ R1, R2, W int }
 
 type schedResult struct {
-	obs       []obs
-	inv       []int
-	errfs     []int
+	obs                 []obs
+	inv                 []int
+	errfs               []int
 	runningAtWaitReturn []int
-	waitErr   int // -1 not returned
-	notes     []string
+	waitErr             int // -1 not returned
+	notes               []string
 }
 
 func runSchedule(size int, errcb bool, ops []opT) schedResult {
@@ -124,7 +137,8 @@ func runSchedule(size int, errcb bool, ops []opT) schedResult {
 		select {
 		case id := <-startedCh:
 			bRunning = append(bRunning, id)
-		case <-time.After(long):
+		case <-time.After(long()):
+			atomic.AddInt32(&timeouts, 1)
 			res.notes = append(res.notes, "accepted job never started")
 		}
 	}
@@ -133,7 +147,8 @@ func runSchedule(size int, errcb bool, ops []opT) schedResult {
 		if expectResult {
 			select {
 			case err = <-njRes:
-			case <-time.After(long):
+			case <-time.After(long()):
+				atomic.AddInt32(&timeouts, 1)
 				return 0
 			}
 		} else {
@@ -165,7 +180,8 @@ func runSchedule(size int, errcb bool, ops []opT) schedResult {
 		if expect {
 			select {
 			case err = <-waitRes:
-			case <-time.After(long):
+			case <-time.After(long()):
+				atomic.AddInt32(&timeouts, 1)
 				return 1
 			}
 		} else {
@@ -226,13 +242,15 @@ func runSchedule(size int, errcb bool, ops []opT) schedResult {
 				if errcb {
 					select {
 					case <-errfCh:
-					case <-time.After(long):
+					case <-time.After(long()):
+						atomic.AddInt32(&timeouts, 1)
 						res.notes = append(res.notes, "errf not called")
 					}
 				} else {
 					select {
 					case <-ctx.Done():
-					case <-time.After(long):
+					case <-time.After(long()):
+						atomic.AddInt32(&timeouts, 1)
 						res.notes = append(res.notes, "job error did not cancel the context")
 					}
 					bCause, bNCause = true, true
@@ -277,10 +295,12 @@ func runSchedule(size int, errcb bool, ops []opT) schedResult {
 					mu.Lock()
 					release[id] <- nil
 					mu.Unlock()
-				case <-time.After(long):
+				case <-time.After(long()):
+					atomic.AddInt32(&timeouts, 1)
 				}
 			}
-		case <-time.After(long):
+		case <-time.After(long()):
+			atomic.AddInt32(&timeouts, 1)
 		}
 	}
 	mu.Lock()
@@ -402,13 +422,13 @@ func natList(xs []int) string {
 // ---------------------------------------------------------------- free-running
 
 type freeCase struct {
-	Fn      string `json:"fn"` // "run" | "errcb" | "batch"
-	Size    int    `json:"size"`
-	Workers int    `json:"workers"` // worker size (run/errcb) or batch limit
-	FailAt  []int  `json:"fail_at"`
-	PrefFailAt int `json:"pref_fail_at"` // batch: pref(last) fails for this last (-1 none)
-	CancelAfter int `json:"cancel_after"` // cancel the parent context after this many job starts (-1 never)
-	Seed    uint64 `json:"seed"`
+	Fn          string `json:"fn"` // "run" | "errcb" | "batch"
+	Size        int    `json:"size"`
+	Workers     int    `json:"workers"` // worker size (run/errcb) or batch limit
+	FailAt      []int  `json:"fail_at"`
+	PrefFailAt  int    `json:"pref_fail_at"` // batch: pref(last) fails for this last (-1 none)
+	CancelAfter int    `json:"cancel_after"` // cancel the parent context after this many job starts (-1 never)
+	Seed        uint64 `json:"seed"`
 }
 
 type fev struct {
@@ -441,11 +461,14 @@ func runFree(fc freeCase) (string, string) {
 	ctx, cancel := context.WithCancel(context.Background())
 	defer cancel()
 	var errfCalls int32
+	var outOfRange int32
 	job := func(ctx context.Context, i, last uint64) error {
 		atomic.AddInt32(&inflight, 1)
 		defer atomic.AddInt32(&inflight, -1)
 		if int(i) < len(inv) {
 			atomic.AddInt32(&inv[i], 1)
+		} else {
+			atomic.AddInt32(&outOfRange, 1)
 		}
 		mu.Lock()
 		evs = append(evs, fev{'s', int(i), int(last)})
@@ -490,6 +513,9 @@ func runFree(fc freeCase) (string, string) {
 	mu.Unlock()
 	time.Sleep(300 * time.Microsecond)
 
+	if atomic.LoadInt32(&outOfRange) > 0 {
+		return "index-out-of-range", "a job was called with an index >= size"
+	}
 	for i := range inv {
 		if n := atomic.LoadInt32(&inv[i]); n > 1 {
 			return "job-run-twice", fmt.Sprintf("index %d ran %d times", i, n)
@@ -614,7 +640,11 @@ func main() {
 		res.Count(key, hasWait && len(s.out.inv) > 0)
 		res.Dist(bucket)
 		for _, n := range s.out.notes {
-			res.Fail("harness-timeout", n, rp)
+			class := "expected-effect-not-observed"
+			if strings.Contains(n, "did not cancel") {
+				class = "job-error-does-not-cancel"
+			}
+			res.Fail(class, n, rp)
 		}
 		for id, n := range s.out.inv {
 			if n != 1 {
